@@ -5,7 +5,7 @@
 // module; `analyse_state` is what the CLI runs for every shape/potential combination.
 #[allow(dead_code, unused_imports)]
 mod cli {
-    include!("/repo/src/main.rs");
+    include!(concat!(env!("CARGO_MANIFEST_DIR"), "/../repo-link/src/main.rs"));
 
     pub fn run<S: State>(out: std::path::PathBuf, replicas: u64, state: S, opt: &BuildOptimiser) -> Result<(), Error> {
         analyse_state(out, replicas, state, opt)
